@@ -451,8 +451,8 @@ Qed.
 Lemma ref_id_in o : ref_okb (c_heap c) ids (VRef o) = true ->
   exists f j, hget (c_heap c) o = Some f /\ o_id f = Some j /\ In j ids.
 Proof.
-  cbn [ref_okb]. destruct (hget (c_heap c) o) as [f|]; [|discriminate]. destruct (o_id f) as [j|]; [|discriminate].
-  intros H. exists f, j. split; [reflexivity|]. split; [reflexivity|]. apply memZ_In. exact H.
+  cbn [ref_okb]. destruct (hget (c_heap c) o) as [f|]; [|discriminate]. destruct (o_id f) as [j|] eqn:Ej; [|discriminate].
+  intros H. exists f, j. split; [reflexivity|]. split; [exact Ej|]. apply memZ_In. exact H.
 Qed.
 
 (* C04 doc_refs_resolve: the written document is closed *)
@@ -471,33 +471,113 @@ Proof.
   { intros i Hi. apply memZ_In. eapply Permutation_in; [apply Permutation_sym; exact PS|exact Hi]. }
   assert (Fin : forall i, In i ids -> memZ i (map fst FL) = true).
   { intros i Hi. apply memZ_In. eapply Permutation_in; [apply Permutation_sym; exact PF|exact Hi]. }
-  repeat (apply andb_true_intro; split).
-  - reflexivity.
-  - reflexivity.
-  - apply NoDup_nodupZ. apply (Permutation_NoDup (l := 0 :: sids ++ ids)).
-    + apply perm_skip. apply Permutation_sym. apply Permutation_app; assumption.
-    + constructor; [|exact ND]. intros Hi. apply in_app_or in Hi. destruct Hi as [Hi|Hi]; apply memZ_In in Hi; congruence.
-  - apply forallb_forall. intros p Hp.
-    assert (In p FSS) as Hp' by (eapply Permutation_in; [apply sort_by_perm|exact Hp]).
-    destruct (fs_refs_ok s c ids (snd p) (GF p Hp')) as [R1 R2].
-    destruct (fs_refs s (snd p)) as [ss fs]. cbn [fst snd] in R1, R2.
-    apply andb_true_intro. split; apply forallb_forall; intros i Hi; [apply Sin, R1, Hi|apply Fin, R2, Hi].
-  - apply forallb_forall. intros v Hv. apply in_map_iff in Hv. destruct Hv as (w & <- & Hw). cbn [fst].
-    apply Sin. apply (in_map (fun v => s_xid (v_sofa v))). exact Hw.
-  - apply NoDup_nodupZ. rewrite map_map. cbn [fst]. exact NDS.
-  - apply forallb_forall. intros c0 Hc0.
-    assert (In c0 (map (with_members VL) (map (g0 c) (c_views c)))) as Hc1 by (eapply Permutation_in; [apply sort_by_perm|exact Hc0]).
-    rewrite map_map in Hc1. apply in_map_iff in Hc1. destruct Hc1 as (v & <- & Hv).
-    pose proof (forallb_In _ _ _ W3 Hv) as VO. unfold view_okb in VO.
-    apply andb_prop in VO. destruct VO as [VO VM]. apply andb_prop in VO. destruct VO as [VA _].
-    apply forallb_forall. intros i Hi. apply Fin. apply in_app_or in Hi. destruct Hi as [Hi|Hi].
-    + cbn [with_members cs_members] in Hi. unfold members_of in Hi.
-      apply (Permutation_in _ (zsort_perm' _)) in Hi. apply in_flat_map in Hi. destruct Hi as (w & Hw & Hiw).
-      apply filter_In in Hw. destruct Hw as [Hw _]. apply in_map_iff in Hw. destruct Hw as (v' & <- & Hv'). cbn [snd] in Hiw.
-      apply (Permutation_in _ (zsort_perm' _)) in Hiw. unfold msf in Hiw. apply in_map_iff in Hiw. destruct Hiw as (o & <- & Ho).
-      pose proof (forallb_In _ _ _ W3 Hv') as VO'. unfold view_okb in VO'. apply andb_prop in VO'. destruct VO' as [_ VM'].
-      destruct (ref_id_in o (forallb_In _ _ _ VM' Ho)) as (f & j & Eg & Ej & Hj). rewrite Eg, Ej. exact Hj.
-    + cbn [with_members cs_arr g0] in Hi. unfold arr_id in Hi. destruct (s_arr (v_sofa v)) as [o|]; [|destruct Hi].
-      destruct (ref_id_in o VA) as (f & j & Eg & Ej & Hj). rewrite Eg, Ej in Hi. destruct Hi as [<-|[]]. exact Hj.
+  assert (C1 : nodupZ (0 :: map cs_id SL ++ map fst FL) = true).
+  { apply NoDup_nodupZ. apply (Permutation_NoDup (l := 0 :: sids ++ ids)).
+      + apply perm_skip. apply Permutation_sym. apply Permutation_app; assumption.
+      + constructor; [|exact ND]. intros Hi. apply in_app_or in Hi. destruct Hi as [Hi|Hi]; apply memZ_In in Hi; congruence. }
+  assert (C2 : forallb (fun p : xid * cfs => let '(ss, fs) := fs_refs s (snd p) in forallb (fun i => memZ i (map cs_id SL)) ss && forallb (fun i => memZ i (map fst FL)) fs) FL = true).
+  { apply forallb_forall. intros p Hp.
+      assert (In p FSS) as Hp' by (eapply Permutation_in; [apply sort_by_perm|exact Hp]).
+      destruct (fs_refs_ok s c ids (snd p) (GF p Hp')) as [R1 R2].
+      destruct (fs_refs s (snd p)) as [ss fs]. cbn [fst snd] in R1, R2.
+      apply andb_true_intro. split; apply forallb_forall; intros i Hi; [apply Sin, R1, Hi|apply Fin, R2, Hi]. }
+  assert (C3 : forallb (fun v : xid * list xid => memZ (fst v) (map cs_id SL)) VL = true).
+  { apply forallb_forall. intros v Hv. apply in_map_iff in Hv. destruct Hv as (w & <- & Hw). cbn [fst].
+      apply Sin. apply (in_map (fun v => s_xid (v_sofa v))). exact Hw. }
+  assert (C4 : nodupZ (map fst VL) = true).
+  { apply NoDup_nodupZ. rewrite map_map. cbn [fst]. exact NDS. }
+  assert (C5 : forallb (fun c0 => forallb (fun i => memZ i (map fst FL)) (cs_members c0 ++ opt_list (cs_arr c0))) SL = true).
+  { apply forallb_forall. intros c0 Hc0.
+      assert (In c0 (map (with_members VL) (map (g0 c) (c_views c)))) as Hc1 by (eapply Permutation_in; [apply sort_by_perm|exact Hc0]).
+      rewrite map_map in Hc1. apply in_map_iff in Hc1. destruct Hc1 as (v & <- & Hv).
+      pose proof (forallb_In _ _ _ W3 Hv) as VO. unfold view_okb in VO.
+      apply andb_prop in VO. destruct VO as [VO VM]. apply andb_prop in VO. destruct VO as [VA _].
+      apply forallb_forall. intros i Hi. apply Fin. apply in_app_or in Hi. destruct Hi as [Hi|Hi].
+      + cbn [with_members cs_members] in Hi. unfold members_of in Hi.
+        apply (Permutation_in _ (zsort_perm' _)) in Hi. apply in_flat_map in Hi. destruct Hi as (w & Hw & Hiw).
+        apply filter_In in Hw. destruct Hw as [Hw _]. apply in_map_iff in Hw. destruct Hw as (v' & <- & Hv'). cbn [snd] in Hiw.
+        apply (Permutation_in _ (zsort_perm' _)) in Hiw. unfold msf in Hiw. apply in_map_iff in Hiw. destruct Hiw as (o & <- & Ho).
+        pose proof (forallb_In _ _ _ W3 Hv') as VO'. unfold view_okb in VO'. apply andb_prop in VO'. destruct VO' as [_ VM'].
+        destruct (ref_id_in o (forallb_In _ _ _ VM' Ho)) as (f & j & Eg & Ej & Hj). rewrite Eg, Ej. exact Hj.
+      + cbn [with_members cs_arr g0] in Hi. unfold arr_id in Hi. destruct (s_arr (v_sofa v)) as [o|]; [|destruct Hi].
+        destruct (ref_id_in o VA) as (f & j & Eg & Ej & Hj). rewrite Eg, Ej in Hi. destruct Hi as [<-|[]]. exact Hj. }
+  apply andb_true_intro; split; [apply andb_true_intro; split; [apply andb_true_intro; split; [apply andb_true_intro; split;
+    [apply andb_true_intro; split; [reflexivity|exact C1]|exact C2]|exact C3]|exact C4]|exact C5].
 Qed.
 End DocOk.
+
+(* ------------------------------------------------------------------------------------------------ save_xmi on a well-formed input *)
+(* reachability from the indexed structures through the declarative successor relation (ReachSpec.succ_rel: references,
+   TOP-ranged features, list head / tail, FSArray elements, inline FSArray members, heads of inline FSList nodes) *)
+Inductive reachable (s : schema) (h : heap) (seeds : list oid) : oid -> Prop :=
+ | rb_seed o : In o seeds -> reachable s h seeds o
+ | rb_step o x : reachable s h seeds o -> succ_rel false s h o x -> reachable s h seeds x.
+
+Lemma reach_reachable s h seeds : wf_heapb false s h = true -> seeds_liveb h seeds = true ->
+  forall o, reach false s h seeds o -> reachable s h seeds o /\ live h o = true.
+Proof.
+  intros Hwf Hsl o R. induction R as [o Ho|o x R [IH1 IH2] Hn Hx].
+  - split; [apply rb_seed; exact Ho|]. unfold seeds_liveb in Hsl. exact (forallb_In _ _ _ Hsl Ho).
+  - split.
+    + apply (rb_step s h seeds o x IH1). apply (succs_declarative_wf false s h o Hwf IH2 x). exact Hx.
+    + destruct (live_hget _ _ IH2) as (f & Hg). destruct (wf_obj _ _ _ _ _ Hwf Hg) as (l & Hc & Hok).
+      unfold succs in Hx. rewrite Hg, Hc in Hx. apply refs_of_In in Hx. exact (forallb_In _ _ _ Hok Hx).
+Qed.
+
+Section Save.
+Variable fmt_flt : flt -> string.
+Variable parse_flt : string -> option flt.
+Hypothesis flt_rt : forall x, parse_flt (fmt_flt x) = Some x.
+Hypothesis flt_tok : forall x, tok_ok (fmt_flt x).
+
+Lemma wf_inb_parts s c : wf_inb s c = true ->
+  wf_casb s c = true /\ forallb (fun p => type_sofa_okb s (o_type (snd p))) (c_heap c) = true.
+Proof. unfold wf_inb. intros H. apply andb_prop in H. exact H. Qed.
+
+(* C04 / C01: faithful — under well-formedness of the INPUT only *)
+Theorem denote_save_xmi_wf s c d c' : wf_casb s c = true -> save_xmi fmt_flt s c = Ok (d, c') ->
+  denote_xmi parse_flt s d = do x <- canon_xmi s c ;; Ok (norm_xmi s x).
+Proof.
+  intros WF HS. apply (denote_save_xmi fmt_flt parse_flt flt_rt flt_tok s c d c' HS).
+  intros all HW. exact (wf_written s c c' all WF HW).
+Qed.
+
+(* C04: closed *)
+Theorem doc_ok_save_xmi s c d c' : wf_inb s c = true -> save_xmi fmt_flt s c = Ok (d, c') -> doc_ok_xmi parse_flt s d = true.
+Proof.
+  intros WF HS. destruct (wf_inb_parts s c WF) as [WC WT].
+  destruct (save_xmi_split fmt_flt s c d c' HS) as (all & HW & HD).
+  pose proof (wf_written s c c' all WC HW) as WX.
+  destruct (written_facts_hold s c c' all WC HW) as [_ Fsh _ _ _ _ _ _ _ _].
+  apply (doc_ok_written fmt_flt parse_flt flt_rt flt_tok s c' all WX); [|exact HD].
+  intros io f _ Hf. destruct (shape_get (c_heap c') (c_heap c) (eq_sym Fsh) (snd io) f Hf) as (f0 & E0 & Sf).
+  destruct (shape_eq_parts _ _ Sf) as [Et _]. rewrite <- Et.
+  exact (forallb_In _ _ _ WT (hget_In _ _ _ E0)).
+Qed.
+
+(* C04: complete — every structure reachable from an indexed one is written, each written structure once, under its id;
+   nothing else is written except the sofa data arrays *)
+Theorem save_xmi_complete s c d c' : wf_casb s c = true -> save_xmi fmt_flt s c = Ok (d, c') ->
+  exists all, written s c = Ok (c', all)
+    /\ mapM x_id (filter is_fs d) = Ok (map fst (sort_ids all))
+    /\ NoDup (map fst (sort_ids all)) /\ NoDup (map snd all)
+    /\ (forall i o, In (i, o) all -> has_id (c_heap c') o i)
+    /\ (forall o, reachable s (c_heap c) (member_seeds c) o -> In o (map snd all))
+    /\ (forall o, In o (map snd all) ->
+          reachable s (c_heap c) (member_seeds c) o \/ exists v, In v (c_views c) /\ s_arr (v_sofa v) = Some o).
+Proof.
+  intros WC HS. destruct (save_xmi_split fmt_flt s c d c' HS) as (all & HW & HD). exists all. split; [exact HW|].
+  pose proof (wf_written s c c' all WC HW) as WX.
+  destruct (written_facts_hold s c c' all WC HW) as [_ _ Fid Fno Fni _ Fmem _ Fcl Fonly].
+  destruct (wf_casb_parts s c WC) as (_ & Pwf & Psl & _).
+  destruct (write_doc_struct fmt_flt s c' all WX d HD) as (fss & ses & ves & _ & _ & _ & F3 & _ & E1 & _ & _).
+  split.
+  { rewrite F3. apply (mapM_Forall2_ok x_id fst). apply (Forall2_impl_in _ _ _ _ E1).
+    intros io e _ (f & _ & HE). apply (enc_fs_id _ _ _ _ _ _ _ HE). }
+  split; [eapply Permutation_NoDup; [apply Permutation_map; apply Permutation_sym; apply sort_ids_perm|exact Fni]|].
+  split; [exact Fno|]. split; [exact Fid|]. split.
+  - intros o R. induction R as [o Ho|o x R IH SR]; [exact (Fmem o Ho)|exact (Fcl o x IH SR)].
+  - intros o Ho. destruct (Fonly o Ho) as [R|V]; [left|right; exact V].
+    exact (proj1 (reach_reachable s _ _ Pwf Psl o R)).
+Qed.
+End Save.
